@@ -221,6 +221,9 @@ class Circuit:
                 # normal simtask exit is not possible
                 msg = f"The simulation task failed with error: {self._simtask.exception()}"
             raise EdzedInvalidState(msg)
+        if self._error is not None:
+            # e.g. the very first evaluation failed and the cleanup is still in progress
+            raise EdzedInvalidState(f"The simulation is being stopped: {self._error!r}")
 
     def check_not_finalized(self) -> None:
         """Raise an error if the circuit has been finalized."""
